@@ -272,12 +272,12 @@ pub fn case_strategy() -> BoxedStrategy<Case> {
     g.kw_fields = false;
     let construct = prop_oneof![
         4 => select(vec![BadPrim::U64, BadPrim::I64, BadPrim::Usize, BadPrim::Isize]).prop_map(Construct::Bad64),
-        2 => (2usize..=3).prop_map(Construct::Tuple),
+        2 => (1usize..=3).prop_map(Construct::Tuple),
         1 => (2usize..=3).prop_map(Construct::TupleStruct),
         1 => (2usize..=3).prop_map(Construct::MultiFieldVariant),
         2 => Just(Construct::Flatten),
         2 => prop_oneof![Just(Construct::DataEnumWithoutTag), Just(Construct::DataEnumWithoutContent), Just(Construct::DataEnumWithoutBoth), Just(Construct::TagOnUnitEnum), Just(Construct::ContentOnUnitEnum), Just(Construct::TagOnUnitEnumWithSkippedDataVariant)],
-        2 => select(vec!["\"s\"", "1.5", "true", "1 + 2", "OTHER", "f()", "-1 as u32", "b'a'", "{ 3 }", "2 * OTHER", "u32::MAX", "(4)", "-5"]).prop_map(|s| Construct::ConstNonLiteral(s.to_string())),
+        2 => select(vec!["\"s\"", "1.5", "true", "1 + 2", "OTHER", "f()", "-1 as u32", "b'a'", "{ 3 }", "2 * OTHER", "u32::MAX", "(4)", "-5", "!0", "!0xFF", "-(!1)", "*&7"]).prop_map(|s| Construct::ConstNonLiteral(s.to_string())),
     ];
     (
         gen::program(&g),
@@ -311,6 +311,9 @@ fn is_integer_literal_form(e: &str) -> bool {
 pub struct C08InProc;
 impl SubCheck for C08InProc {
     type Case = Case;
+    fn crash_guard(&self) -> bool {
+        true
+    }
     fn name(&self) -> &'static str {
         "c08-inprocess"
     }
